@@ -1,8 +1,10 @@
 package vg
 
 import (
+	"fmt"
 	"go/token"
 	"go/types"
+	"os"
 
 	"golang.org/x/tools/go/ssa"
 )
@@ -506,6 +508,7 @@ func runC16(c *Ctx) {
 		}
 	}
 	// the wrapped body installed as (part of) a message source: hardLimitReader{r: body} / current = body
+	envLenF := p.MustField("envelope", "length")
 	wholeGuard := func(b *ssa.BasicBlock) bool {
 		for _, f := range FactsAt(b) {
 			if cmp, ok := f.AsCmp(); ok && cmp.Op == token.EQL && IsNilConst(cmp.Y) && LoadedField(cmp.X) == clientEnvF {
@@ -546,6 +549,47 @@ func runC16(c *Ctx) {
 				}
 				if !isBody {
 					return
+				}
+				// a reader built over the body together with a byte budget taken from the
+				// decoded envelope's length hands out exactly one unit
+				if fa, ok := st.Addr.(*ssa.FieldAddr); ok {
+					if al, ok := fa.X.(*ssa.Alloc); ok {
+						budget := false
+						for _, ref := range *al.Referrers() {
+							fa2, ok := ref.(*ssa.FieldAddr)
+							if !ok || fa2 == fa || !isIntegerLike(FieldOfAddr(fa2).Type()) {
+								continue
+							}
+							for _, r2 := range *fa2.Referrers() {
+								st2, ok := r2.(*ssa.Store)
+								if !ok || st2.Addr != ssa.Value(fa2) {
+									continue
+								}
+								v := strip(st2.Val)
+								if fv, ok := v.(*ssa.Field); ok && FieldOfVal(fv) == envLenF {
+									budget = true
+								}
+								for _, l := range Origins(st2.Val) {
+									if os.Getenv("VG_DEBUG") != "" {
+										fmt.Fprintf(os.Stderr, "C16.4 budget origin: kind=%s v=%v field=%v\n", l.Kind, l.V, l.Field)
+									}
+									if fv, ok := l.V.(*ssa.Field); ok && FieldOfVal(fv) == envLenF {
+										budget = true
+									}
+									if l.Kind == "load" && l.Field == envLenF {
+										budget = true
+									}
+									if l.Kind == "call" && l.Call.Common().IsInvoke() && N(l.Call.Common().Method) == "decodeEnvelope" {
+										budget = true // (a field of) the decoded envelope
+									}
+								}
+							}
+						}
+						if budget {
+							c.OK("C16.4", FuncName(fn), "unit:payload-budget", st.Pos(), "the body is wrapped in a reader whose byte budget is the decoded envelope length: one unit")
+							return
+						}
+					}
 				}
 				c.Check(wholeGuard(st.Block()), "C16.4", FuncName(fn), "unit:whole-body-source", st.Pos(),
 					"the client body as a whole becomes a message source only when the client protocol has no envelopes",
